@@ -23,7 +23,9 @@ def input_specs(shape):
             fixed = (rd.get("alleles") or {}).get(str(c))
             if fixed is None and not shape.get("errorfree"):
                 out.append(("a_%d_%d" % (r, c), 0, 1))
-            out.append(("w_%d_%d" % (r, c), shape.get("Wmin", 0), W))
+            fw = (rd.get("weights") or {}).get(str(c))
+            if fw is None:
+                out.append(("w_%d_%d" % (r, c), shape.get("Wmin", 0), W))
     for c in range(shape["ncols"]):
         out.append(("rc_%d" % c, 0, shape.get("Rc", 15)))
     if shape.get("distrust"):
@@ -60,7 +62,11 @@ def generate(shape):
                 A('    unsigned a_%d = sym_u32("a_%d_%d", 0, 1);' % (c, r, c))
             else:
                 A('    unsigned a_%d = %d;' % (c, fixed))
-            A('    unsigned w_%d = sym_u32("w_%d_%d", %d, %d);' % (c, r, c, shape.get("Wmin", 0), W))
+            fw = (rd.get("weights") or {}).get(str(c))
+            if fw is None:
+                A('    unsigned w_%d = sym_u32("w_%d_%d", %d, %d);' % (c, r, c, shape.get("Wmin", 0), W))
+            else:
+                A('    unsigned w_%d = %d;' % (c, fw))
         A('    Read* r = new Read("r%d", 50, 0, %d);' % (r, rd["sample"]))
         for c in rd["cols"]:
             A('    r->addVariant(%d, a_%d, w_%d);' % (pos[c], c, c))
@@ -104,10 +110,13 @@ def generate(shape):
 
 
 def with_alleles(shape, inp):
-    """inputs completed with the a_r_c entries an error-free shape derives"""
+    """inputs completed with the a_r_c entries an error-free shape derives and with fixed weights"""
+    inp = dict(inp)
+    for r, rd in enumerate(shape["reads"]):
+        for c, w in (rd.get("weights") or {}).items():
+            inp["w_%d_%s" % (r, c)] = w
     if not shape.get("errorfree"):
         return inp
-    inp = dict(inp)
     for r, rd in enumerate(shape["reads"]):
         for c in rd["cols"]:
             inp["a_%d_%d" % (r, c)] = 0 if inp["h_%d" % c] == inp["s_%d" % r] else 1
